@@ -294,7 +294,7 @@ def check_C47(rep):
                                                            "Pairs": "PairsThorough"})
     res = _parallel([lambda c=c: tlc.model_check(SPEC_DIR, "MCItp", c, workers=WORKERS, timeout=1500) for _, c in mc] +
                     [lambda: tlc.simulate(SPEC_DIR, "MCItp", sim_cfg, num=20 if quick else 120, depth=40,
-                                          seed=rep.seed * 11 + 47)])
+                                          seed=rep.seed * 11 + 47, timeout=1800)])
     for (mode, _), r in zip(mc, res[:2]):
         rep.add_mc("MCItp Mode=%s MaxLat=2 Pairs=%s MaxSent=%d" % (mode, pairs, maxsent), r,
                    {"Mode": mode, "MaxLat": 2, "Types": [12, 4], "Pairs": pairs, "MaxSent": maxsent})
@@ -460,7 +460,7 @@ def check_C45(rep):
                                                              "Fields": "FieldsThorough"})
     res, behs = _parallel([lambda: tlc.model_check(SPEC_DIR, "MCTpGen", mc_cfg, workers=WORKERS, timeout=1500),
                            lambda: tlc.simulate(SPEC_DIR, "MCTpGen", sim_cfg, num=30 if quick else 200, depth=50,
-                                                seed=rep.seed * 13 + 45)])
+                                                seed=rep.seed * 13 + 45, timeout=1800)])
     rep.add_mc("MCTpGen ValidLat=1 ReadyLat=1 Fields=%s MaxReq=%d" % (fields, maxreq), res,
                {"ValidLat": 1, "ReadyLat": 1, "Fields": fields, "MaxReq": maxreq})
 
@@ -674,6 +674,9 @@ def _setup_classify(trace, matched, status, meta):
     pattern = "other"
     if status in ("spurious_received", "received_missing"):
         pk = _setup_packets(trace[:matched])
+        if status == "received_missing":          # judged MaxLat cycles after the dropped SETUP: look up to that packet
+            owed = [k for k, p in enumerate(pk) if p["good"] and p["flagged"] and p["bytes"] == 8]
+            pk = pk[:owed[-1] + 1] if owed else pk
         poison = [k for k, p in enumerate(pk) if _is_runt(p) or _is_abort_first(p)]
         if poison:
             later_full = [p for p in pk[poison[-1] + 1:] if p["full_word"]]
@@ -814,8 +817,8 @@ def check_C48(rep):
     r_s, r_d, b_s, b_d = _parallel([
         lambda: tlc.model_check(SPEC_DIR, "MCSsSetup", mcs, workers=WORKERS, timeout=1500),
         lambda: tlc.model_check(SPEC_DIR, "MCSsDesc", mcd, workers=4, timeout=1500, allow_uncovered=("Action",)),
-        lambda: tlc.simulate(SPEC_DIR, "MCSsSetup", sims, num=nsim, depth=60, seed=rep.seed * 17 + 48),
-        lambda: tlc.simulate(SPEC_DIR, "MCSsDesc", simd, num=nsim, depth=40, seed=rep.seed * 19 + 48)])
+        lambda: tlc.simulate(SPEC_DIR, "MCSsSetup", sims, num=nsim, depth=60, seed=rep.seed * 17 + 48, timeout=1800),
+        lambda: tlc.simulate(SPEC_DIR, "MCSsDesc", simd, num=nsim, depth=40, seed=rep.seed * 19 + 48, timeout=1800)])
     rep.add_mc("MCSsSetup Words=%s MaxLat=1 MaxPkts=2 MaxBytes=12" % words, r_s,
                {"Words": words, "MaxLat": 1, "MaxPkts": 2, "MaxBytes": 12})
     rep.add_mc("MCSsDesc 3-descriptor table (sparse index) Values=%s Lengths=%s MaxReqs=%d" % (vals, lens, maxreqs), r_d,
@@ -1529,7 +1532,7 @@ def check_C46(rep):
     sim_cfg = tlc.render_cfg(_cfg("MCSsInEp_sim.cfg.tmpl"), {"Grace": 2, "Dts": "{0, 1, 2}", "MaxPkt": 8, "Ns": "{1, 2, 3, 4}"})
     res, behs = _parallel([
         lambda: tlc.model_check(SPEC_DIR, "MCSsInEp", mc_cfg, workers=WORKERS, timeout=2400, allow_uncovered=("Action",)),
-        lambda: tlc.simulate(SPEC_DIR, "MCSsInEp", sim_cfg, num=16 if quick else 100, depth=60, seed=rep.seed * 23 + 46)])
+        lambda: tlc.simulate(SPEC_DIR, "MCSsInEp", sim_cfg, num=16 if quick else 100, depth=60, seed=rep.seed * 23 + 46, timeout=1800)])
     rep.add_mc("MCSsInEp MaxPkt=8 MaxBytes=%d MaxAcks=%d Dts=%s" % (mb, ma, dts), res,
                {"MaxPkt": 8, "Ns": [1, 4], "MaxBytes": mb, "MaxAcks": ma, "Dts": dts, "Grace": 2})
 
